@@ -71,11 +71,24 @@ def work(item):
         prng = random.Random(mix(seed, "c03-private", tag))
         for _ in range(12 if quick else 60):
             l = c17.private_array_line(prng)
+            parts = l.split("\t")
+            insane = None
             if prng.random() < 0.5:
-                parts = l.split("\t")
                 parts[3] = calls.hx("AA_private_entry")
-                l = "\t".join(parts)
-            plan.append(("@private_array", None, l))
+            if prng.random() < 0.25:
+                insane = "insane-cell"
+                # a cell no crystal has (an edge <= 0, an angle outside ]0,180[): whatever the reader makes of it, it reports at most one error
+                s = bytes.fromhex(parts[2][2:]).decode("latin-1")
+                k = s.find("#UCELL ")
+                if k >= 0:
+                    e = s.find("\n", k)
+                    f = s[k + 7:e].split()
+                    i = prng.randrange(6)
+                    f[i] = prng.choice(["-1.5", "0"]) if i < 3 else prng.choice(["190.27", "0", "-90", "180"])
+                    s = s[:k + 7] + " ".join(f) + s[e:]
+                    parts[2] = calls.hx(s)
+            l = "\t".join(parts)
+            plan.append(("@private_array", insane, l))
         desc["@private_array"] = dict(ret="x", args=["int", "const char*", "const char*"], argnames=["cap", "text", "query"])
     if "@error_api" in fns or tag.endswith("_0"):
         plan.append(("@error_api", ["i"], [2]))
@@ -116,10 +129,12 @@ def work(item):
             if ";q=" in r and not r.endswith(";q=none"):
                 q = r.split(";q=")[1].split(":")
                 vol, d = float.fromhex(q[0]), float.fromhex(q[2])
-                if not (vol > 0 and d > 0):
+                if not (vol > 0 and d > 0) and kinds != "insane-cell":
                     st.violation("nonpositive-without-error:@private_array", dict(config=config, scenario=r[:120]), "looked-up crystal with volume > 0 and d(1,1,1) > 0", dict(volume=vol, d=d))
             elif "pa:rv=" not in r:
                 st.violation("private-array-scenario-broken", dict(config=config), "scenario result", r[:200])
+            if p.get("stderr") and b"set over the top" in p["stderr"]:
+                st.violation("error-overwrite:@private_array", dict(config=config, scenario=r[:100]), "at most one error per call", p["stderr"][:200])
             continue
         for suffix, exp, got in apisweep.judge(fn, p, has_slot):
             st.violation("%s:%s" % (suffix, fn), case, exp, got)
